@@ -236,6 +236,12 @@ func (zns *ZnPMServer) readNamedPipe(pipe *pipe) {
 		return
 	}
 
+	// keep a write end open in the master itself: otherwise the reader gets EOF (and the master
+	// would give up) at the moment when the last worker has exited and its replacement has not
+	// opened the pipe yet
+	if keepAlive, err := OpenNamedPipeWriter(pipe); err == nil {
+		defer keepAlive.Close()
+	}
 	var buf = make([]byte, 5)
 	for {
 		var state uint8
